@@ -1,7 +1,8 @@
 (** C16 — connection IDs: limits honoured both ways, retirements reported, routing clean.
     Only statements live here; each is closed by [exact] of a lemma proved in ConnIDs/. *)
 From Coq Require Import List ZArith Bool.
-From V Require Import Gen.Params Lib.Hex ConnIDs.Model ConnIDs.ProofsGen ConnIDs.ProofsMgr ConnIDs.ProofsMgr2 ConnIDs.ProofsMgr3 ConnIDs.ProofsMgr4 ConnIDs.ProofsMgr5 ConnIDs.Routing ConnIDs.ProofsRouting ConnIDs.GenRoute ConnIDs.ProofsGenRoute.
+From V Require AdvEnf.Model.
+From V Require Import Gen.Params Lib.Hex ConnIDs.Model ConnIDs.ProofsGen ConnIDs.ProofsMgr ConnIDs.ProofsMgr2 ConnIDs.ProofsMgr3 ConnIDs.ProofsMgr4 ConnIDs.ProofsMgr5 ConnIDs.LimitSel ConnIDs.ProofsMgr6 ConnIDs.Routing ConnIDs.ProofsRouting ConnIDs.GenRoute ConnIDs.ProofsGenRoute.
 Import ListNotations.
 Open Scope Z_scope.
 
@@ -43,8 +44,11 @@ Print Assumptions C16_limits_at_least_two.
     IDs, a NEW_CONNECTION_ID frame never gives PROTOCOL_VIOLATION or a panic;
     CONNECTION_ID_LIMIT_ERROR only if afterwards more than lim pairwise distinct, received,
     never-retired sequence numbers are held - hence never while the peer's duplicate-free
-    set of active IDs has at most lim elements; acceptance only if active + queue fit into
-    lim (the first ID beyond is refused); any other error only for conflicting contents of
+    set of active IDs has at most lim elements; a frame is accepted only if the active ID plus
+    the QUEUED IDs fit into lim - IDs handed to path probing are not counted by the code
+    (conn_id_manager.go Add checks len(queue) only), so with probing paths more than lim IDs
+    can be held (e.g. add 1,2,3; GetConnIDForPath x3; add 4,5,6: 7 IDs with lim 4): the endpoint
+    is more generous than RFC 9000 5.1.1 demands of it, never stricter than it advertised; any other error only for conflicting contents of
     a queued or probing sequence number. *)
 Theorem C16_accept_within_advertised : forall init ops st seq rpt c tok d,
   init <> [] -> reachP op_okc init ops st -> 0 <= rpt <= seq ->
@@ -62,6 +66,39 @@ Theorem C16_accept_within_advertised : forall init ops st seq rpt c tok d,
                            n_seq x = seq /\ cid_eqb (n_cid x) c && (n_tok x =? tok) = false).
 Proof. exact accept_within_limit_nz. Qed.
 Print Assumptions C16_accept_within_advertised.
+
+(** (b) without a free hypothesis (round 5): [peer_unretired ops st] is the peer's own count of its
+    active IDs - every sequence number it issued (0 and those in its frames) for which this
+    endpoint has queued no RETIRE_CONNECTION_ID. While that count stays within lim the frame is
+    never refused with CONNECTION_ID_LIMIT_ERROR. *)
+Theorem C16_no_limit_error_within_peer_view : forall init ops st seq rpt c tok d,
+  init <> [] -> reachP op_okc init ops st -> 0 <= rpt <= seq ->
+  let st' := fst (mgr_add seq rpt c tok d st) in
+  zlength (peer_unretired (MAdd seq rpt c tok d :: ops) st') <= Z.max MaxActiveConnectionIDs (m_advlimit st) ->
+  snd (mgr_add seq rpt c tok d st) <> RLimit.
+Proof. exact no_limit_error_within_peer_view. Qed.
+Print Assumptions C16_no_limit_error_within_peer_view.
+
+(** "the limit it advertised itself": how the two client constructors select it (LimitSel, tied by
+    cases through the real constructors: plain, parrots, parameter suppressed, values 2..9).
+    The bound the manager enforces is never below the active_connection_id_limit on the wire
+    (absent = 2), equals it for the plain client and for every spec advertising at least
+    MaxActiveConnectionIDs; and it is the connection-ID component of C12's enforced limits, so
+    C12_spec_client_ok / C12_plain_client_ok speak about the same number. *)
+Theorem C16_enforced_covers_wire : forall src init,
+  wire_limit src <= enforced_limit src init /\
+  (MaxActiveConnectionIDs <= wire_limit src -> enforced_limit src init = wire_limit src) /\
+  (src = LPlain -> enforced_limit src init = wire_limit src).
+Proof. exact enforced_covers_wire. Qed.
+Print Assumptions C16_enforced_covers_wire.
+
+Theorem C16_enforced_limit_is_C12 : forall (a : AdvEnf.Model.limits) (c : AdvEnf.Model.config) init v,
+  (v = Some (AdvEnf.Model.l_cid a) \/ (v = None /\ AdvEnf.Model.l_cid a = 2)) ->
+  AdvEnf.Model.l_cid (AdvEnf.Model.enforced_spec a c) = enforced_limit (LSpec v) init /\
+  AdvEnf.Model.l_cid a = wire_limit (LSpec v) /\
+  AdvEnf.Model.l_cid (AdvEnf.Model.plain_advertised c) = wire_limit LPlain.
+Proof. exact enforced_limit_is_C12. Qed.
+Print Assumptions C16_enforced_limit_is_C12.
 
 (** round 3: the hypothesis "the active connection ID is non-empty" is a theorem: a manager
     created with a non-empty destination connection ID that is only handed non-empty IDs
@@ -114,15 +151,17 @@ Theorem C16_retire_reported_once : forall init ops st,
 Proof. exact retire_reported_once. Qed.
 Print Assumptions C16_retire_reported_once.
 
-(** (c) for EVERY history (any operations in any order, duplicates, probing, use after
-    errors): copies held + RETIRE frames queued for a sequence number never decreases and
-    never exceeds the frames received for it (+1 for the initial ID) - no sequence number
-    ever leaves the manager without a RETIRE_CONNECTION_ID. *)
-Theorem C16_retire_never_lost : forall init ops st s,
+(** (c) bookkeeping bounds for EVERY history (any operations in any order, duplicates, probing,
+    use after errors): phi = copies held + RETIRE frames queued for a sequence number never
+    exceeds the frames received for it (+1 for the initial ID); the lower bound only says
+    something for number 0 (phi >= 1: the initial ID is held or was reported). The statement
+    that nothing leaves silently is the monotonicity [C16_retire_tracked_stays_tracked] together
+    with [C16_retire_reported_once]. (Renamed in round 5; was C16_retire_never_lost.) *)
+Theorem C16_retire_bookkeeping_bounds : forall init ops st s,
   reachP any_op init ops st ->
   b2z (0 =? s) <= phi st s <= b2z (0 =? s) + frames_for s ops.
 Proof. exact phi_history. Qed.
-Print Assumptions C16_retire_never_lost.
+Print Assumptions C16_retire_bookkeeping_bounds.
 
 Theorem C16_retire_tracked_stays_tracked : forall init ops st o s,
   reachP any_op init ops st ->
@@ -174,8 +213,9 @@ Proof. exact tokens_exact_set. Qed.
 Print Assumptions C16_tokens_exact_set.
 
 (** Round 4 - the token discipline derived: on every history the connection produces in which a
-    frame for a sequence number that is not queued never carries a token the manager already
-    holds ([op_okt]: every sequence number has its own token, retransmissions repeat it), the
+    frame for a sequence number the manager does not hold (not active, queued or probing) never
+    carries a token it holds ([op_okt]; retransmissions of frames for held numbers are
+    unconstrained), the
     callbacks never register a registered token nor remove an unregistered one, the held tokens
     are pairwise distinct, the transport's token map is exactly {active token} + probing tokens,
     and Close empties it (hypothesis [disc] of C16_tokens_exact_set discharged). *)
@@ -187,6 +227,33 @@ Theorem C16_token_discipline : forall init ops st,
 Proof. exact token_discipline. Qed.
 Print Assumptions C16_token_discipline.
 
+(** the same from "every sequence number has its own token" as a function: tokens of all frames
+    (number 0: the transport-parameter token) follow an injective f - retransmissions of frames
+    for active, probing, queued or retired numbers included. *)
+Theorem C16_token_discipline_fn : forall (f : Z -> Z) init ops st,
+  (forall a b, f a = f b -> a = b) ->
+  reachP (fun o s => op_ok o s /\ frame_follows f o) init ops st ->
+  disc (m_log st) = true /\ NoDup (all_toks st) /\
+  (forall t, reg t (m_log st) = true <-> In t (atoks st) \/ In t (ptoks (m_probing st))) /\
+  disc (m_log (mgr_close st)) = true /\ (forall t, reg t (m_log (mgr_close st)) = false).
+Proof. exact token_discipline_fn. Qed.
+Print Assumptions C16_token_discipline_fn.
+
+Example C16_token_fn_nonvacuous :
+  let f := fun s => 1000 + s in
+  let ops := [w_add 1; w_add 2; MPathGet 1; w_add 1; MHsDone; MGet 0; w_add 2; MPathRetire 1; w_add 1] in
+  (forall a b, f a = f b -> a = b) /\
+  reachP (fun o s => op_ok o s /\ frame_follows f o) w_init (rev ops) (mgr_run ops (mgr_init w_init)).
+Proof. exact token_fn_example. Qed.
+Print Assumptions C16_token_fn_nonvacuous.
+
+Example C16_token_retransmissions_in_hypothesis :
+  hist_oktb [w_add 1; MHsDone; MGet 0; w_add 1] (mgr_init w_init) = true /\
+  hist_oktb [w_add 1; w_add 2; MPathGet 1; w_add 1] (mgr_init w_init) = true /\
+  hist_oktb [w_add 1; w_add 2; w_add 3; MPathGet 1; MHsDone; MGet 0; w_add 1; w_add 2; w_add 3; MPathRetire 1; w_add 1] (mgr_init w_init) = true.
+Proof. exact retransmissions_okt. Qed.
+Print Assumptions C16_token_retransmissions_in_hypothesis.
+
 Example C16_token_history_nonvacuous :
   reachP op_okt w_init (rev w_good) (mgr_run w_good (mgr_init w_init)).
 Proof. exact (hist_oktb_reach w_init w_good w_good_okt). Qed.
@@ -196,7 +263,10 @@ Example C16_tokens_discipline_nonvacuous : disc (m_log (mgr_run w_good (mgr_init
 Proof. exact w_good_disc. Qed.
 Print Assumptions C16_tokens_discipline_nonvacuous.
 
-(** (d)/(e) Routing. For every history of generator calls without RemoveAll: each
+(** (d)/(e) Routing, CALLBACK BOOKKEEPING level: [routed] is a +1/-1 count over the generator's
+    Add/Remove callbacks (it is not the table: it does not see that the runner's Add refuses a
+    present ID, nor ReplaceWithClosed). The statement about the routing TABLE is
+    C16_connection_routes_exact / C16_connection_cleanup below. For every history of generator calls without RemoveAll: each
     connection ID is routed to the connection exactly as often as it occurs among the
     client's original destination ID (until handshake completion + expiry), the active IDs
     and the retired-but-unexpired IDs; after RemoveRetiredConnIDs(now) no entry with
